@@ -207,6 +207,14 @@ def reportObs (ls : List ObsLayer) : String :=
   ";".intercalate (ls.map fun l =>
     hexOfStr l.name ++ "~" ++ hexOfStr l.path ++ "~" ++ "+".intercalate ((sortStrs l.glyphs).map hexOfStr))
 
+/-- a report with the directory of every layer erased (`name~path~glyphs;…` → `name~~glyphs;…`): which free directory a
+    layer received is not part of what the recorded `entry` findings are about -/
+def erasePaths (rep : String) : String :=
+  ";".intercalate ((rep.splitOn ";").map fun l =>
+    match l.splitOn "~" with
+    | [n, _, g] => n ++ "~~" ++ g
+    | _ => l)
+
 def run (inp obs : List String) : Verdict :=
   match inp with
   | _ :: lcTok :: initTok :: opToks =>
@@ -260,7 +268,9 @@ def run (inp obs : List String) : Verdict :=
         let finAgree := mSave == saveTok && (saveTok ≠ "save:ok" || (loadTok == "load:ok" && mRep == repTok))
         -- the recorded `entry` findings are exactly the failures the MODEL predicts from the indices being out of
         -- step; a failure the model does not predict (another save class, another report) is not one of them
-        let predicted := mSave == saveTok && (saveTok ≠ "save:ok" || mRep == repTok)
+        -- (compared with the directories erased: a harmless difference in WHICH free directory was handed out must not
+        -- turn the recorded finding into an unrecognised one)
+        let predicted := mSave == saveTok && (saveTok ≠ "save:ok" || erasePaths mRep == erasePaths repTok)
         let feats := (if usedEntry && unsynced && predicted then ["entry-unsynced"] else [])
         let finSpec :=
           if saveTok = "save:ok" && loadTok = "load:ok" && repTok = expected then []
